@@ -36,13 +36,34 @@ func (r *Run) lockOpOf(ev Event) *lockOp {
 	if sig.Recv() == nil {
 		return nil
 	}
-	rn, ok := derefNamedT(sig.Recv().Type())
-	if !ok || (rn.Obj().Name() != "Mutex" && rn.Obj().Name() != "RWMutex") {
-		return nil
-	}
 	recv := ev.Recv
 	if recv == nil && ev.Call != nil {
 		recv = recvExpr(ev.Call)
+	}
+	rn, ok := derefNamedT(sig.Recv().Type())
+	if ok && rn.Obj().Name() == "Locker" {
+		// l.Lock() on a sync.Locker handed to a lock helper: the caller's &x.mu or x.mu.RLocker()
+		fn, x := resolveBound(ev.Fn, recv)
+		op := f.Name()
+		x = ast.Unparen(x)
+		if call, isCall := x.(*ast.CallExpr); isCall {
+			if g, _ := calleeObj(fn.Info(), call).(*types.Func); g != nil && g.FullName() == "(*sync.RWMutex).RLocker" {
+				x = recvExpr(call)
+				op = "R" + op
+			} else {
+				return nil
+			}
+		}
+		if u, isU := ast.Unparen(x).(*ast.UnaryExpr); isU && u.Op == token.AND {
+			x = u.X
+		}
+		if x == nil {
+			return nil
+		}
+		return &lockOp{Key: r.lockKey(fn, x), Op: op, Expr: x}
+	}
+	if !ok || (rn.Obj().Name() != "Mutex" && rn.Obj().Name() != "RWMutex") {
+		return nil
 	}
 	return &lockOp{Key: r.lockKey(ev.Fn, recv), Op: f.Name(), Expr: recv}
 }
@@ -428,10 +449,17 @@ func hasLockOps(fn *Func) bool {
 	info := fn.Info()
 	ast.Inspect(fn.Body, func(n ast.Node) bool {
 		if c, ok := n.(*ast.CallExpr); ok {
-			if f, ok := calleeObj(info, c).(*types.Func); ok && f.Pkg() != nil && f.Pkg().Path() == "sync" {
-				switch f.Name() {
-				case "Lock", "RLock", "Unlock", "RUnlock":
-					fn.lockOps = 1
+			if f, ok := calleeObj(info, c).(*types.Func); ok && f.Pkg() != nil {
+				if f.Pkg().Path() == "sync" {
+					switch f.Name() {
+					case "Lock", "RLock", "Unlock", "RUnlock":
+						fn.lockOps = 1
+					}
+				} else if fn.progFuncs != nil && isRepoPkg(f.Pkg()) {
+					// a lock helper of the repository (withLock(&mu, func(){…})) that is looked into
+					if g := fn.progFuncs[f]; g != nil && g != fn && (!f.Exported() || !knownAPI[g.Name]) && hasLockOps(g) {
+						fn.lockOps = 1
+					}
 				}
 			}
 		}
